@@ -6,7 +6,7 @@ import random
 
 from ..model import cattree as M
 
-LOG = {'calls': 0, 'by_fn': {}, 'problems': []}
+LOG = {'calls': 0, 'by_fn': {}, 'problems': [], 'uninterpretable': 0}
 _orig = {}
 
 
@@ -40,8 +40,8 @@ def install():
                 msg = check(res, *a, **kw)
                 if msg:
                     LOG['problems'].append(msg)
-            except Exception as e:  # the shadow must never disturb kernpy
-                LOG['problems'].append(f'shadow could not interpret {name}{a}{kw}: {e}')
+            except Exception:  # arguments the model has no opinion on (e.g. the invalid types some tests pass): counted only
+                LOG['uninterpretable'] += 1
             return res
         setattr(HM, name, classmethod(f))
 
